@@ -13,7 +13,7 @@
 (***************************************************************************)
 EXTENDS TokenGame
 
-CONSTANTS OutFile, MaxSteps
+CONSTANTS OutFile, MaxSteps, Features, MaxRetry, MaxWaits
 
 VARIABLES h
 
@@ -24,17 +24,66 @@ Cnt(st) == [req |-> st.reqn, end |-> st.ended, err |-> st.errs,
 
 XInit == \E i \in 1..NProg : s = CloseQuiet(Started(InitState(i))) /\ h = <<>>
 
+\* which kinds of answers the environment may give to a request of task n
+AnswerKinds(n) ==
+  {<<"", 0>>} \cup
+  (IF "err" \in Features /\ n.retries > 0
+   THEN {<<"err", 0>>, <<"skip", 0>>, <<"exit", 0>>} \cup {<<"retry", r>> : r \in 0..MaxRetry}
+   ELSE {})
+
 XAnswer ==
   /\ Len(h) < MaxSteps
   /\ \E t \in ReqToks(s) : \E pl \in Payloads(s.p, Node(s.p, t.at)) :
-        /\ s' = CloseQuiet(AnswerOK(s, t, pl))
+     \E kn \in AnswerKinds(Node(s.p, t.at)) :
+        /\ s' = CloseQuiet(AnswerAny(s, t, pl, kn[1], kn[2]))
         /\ h' = Append(h, [op |-> "answer", node |-> t.at, occ |-> t.occ, vars |-> pl,
-                           kind |-> "", n |-> 0, pre |-> Cnt(s)])
+                           kind |-> kn[1], n |-> kn[2], cands |-> <<>>, pre |-> Cnt(s)])
 
-XNext == XAnswer
+\* a further Do on the request answered last: must have no effect at all
+XAgain ==
+  /\ "again" \in Features
+  /\ Len(h) < MaxSteps /\ Len(h) > 0 /\ h[Len(h)].op = "answer"
+  /\ \E pl \in Payloads(s.p, Node(s.p, h[Len(h)].node)) :
+        /\ pl # h[Len(h)].vars
+        /\ h' = Append(h, [op |-> "again", node |-> h[Len(h)].node, occ |-> h[Len(h)].occ, vars |-> pl,
+                           kind |-> "", n |-> 0, cands |-> <<>>, pre |-> Cnt(s)])
+  /\ UNCHANGED s
+
+\* several first answers issued concurrently: exactly one takes effect.  The
+\* candidates differ only in variables no condition reads, so the control
+\* flow does not depend on the winner; which one won is decided by the trace
+\* specification from the final store.
+XAnswerC ==
+  /\ "conc" \in Features
+  /\ Len(h) < MaxSteps
+  /\ \E t \in ReqToks(s) :
+       LET P == Payloads(s.p, Node(s.p, t.at)) IN
+       /\ Cardinality(P) >= 2
+       /\ \E k \in 2..3 : k <= Cardinality(P) /\
+            LET cs == SetToSeq(P) IN
+            /\ s' = CloseQuiet(AnswerOK(s, t, cs[1]))
+            /\ h' = Append(h, [op |-> "answerc", node |-> t.at, occ |-> t.occ, vars |-> cs[1],
+                               kind |-> "", n |-> 0, cands |-> SubSeq(cs, 1, k), pre |-> Cnt(s)])
+
+\* completion waits at arbitrary points: n is the time-out in milliseconds
+NWaits == Cardinality({i \in DOMAIN h : h[i].op = "wait"})
+XWait ==
+  /\ "wait" \in Features
+  /\ Len(h) < MaxSteps /\ NWaits < MaxWaits
+  /\ \E ms \in (IF s.ceased THEN {2000} ELSE {1, 20}) : \E k \in 1..(IF "concwait" \in Features THEN 3 ELSE 1) :
+        h' = Append(h, [op |-> "wait", node |-> "", occ |-> k, vars |-> <<>>,
+                        kind |-> "", n |-> ms, cands |-> <<>>, pre |-> Cnt(s)])
+  /\ UNCHANGED s
+
+XNext == XAnswer \/ XAgain \/ XAnswerC \/ XWait
 XSpec == XInit /\ [][XNext]_<<s, h>>
 
-Terminal == ReqToks(s) = {} \/ Len(h) >= MaxSteps
+\* a schedule is maximal when nothing is left to answer (a wait-enabled export
+\* additionally ends every schedule with the final long wait)
+Terminal ==
+  \/ Len(h) >= MaxSteps
+  \/ /\ ReqToks(s) = {}
+     /\ ("wait" \in Features /\ s.ceased) => (Len(h) > 0 /\ h[Len(h)].op = "wait" /\ h[Len(h)].n = 2000)
 
 \* evaluated on every state: records maximal schedules, never prunes
 Record ==
@@ -49,7 +98,7 @@ Dump == ndJsonSerialize(OutFile, TLCGet(1))
 (* invariants of the game checked over the macro-step graph *)
 \* after a no-flow error (or a token stopped by exit / exhausted retries) the
 \* rest of the instance may legitimately wait for ever
-XNoDeadToken  == (ReqToks(s) = {} /\ Moves(s) = {} /\ Live(s) = Toks(s)) => Live(s) = {}
+XNoDeadToken  == (ReqToks(s) = {} /\ Moves(s) = {} /\ Live(s) = Toks(s) /\ s.nkill = 0) => Live(s) = {}
 XCeaseIffDone == s.ceased <=> Complete(s)
 XReqOnce      == RequestedOncePerToken
 =============================================================================
